@@ -15,7 +15,7 @@ import (
 func init() {
 	Register(&Property{
 		ID: "C13",
-		Explanation: "Decides the absence of request-controlled nil dereferences and the classification of malformed input: (R13.1) a forward taint analysis marks every pointer a client can make nil -- elements of []*T and *T fields decoded from JSON (null / absent key), message-typed and oneof fields of protobuf request messages read by field selection or through getters -- follows them through calls, closures, variadic packing, append and struct fields across the keto functions reachable from every API entry point, and requires every dereference (field access, load, method call on a nil pointer/interface, non-comma-ok type assertion) to be dominated by a nil test of that value or of another load of the same field; a sink inside a goroutine started on the request path is process-fatal; (R13.2) every parser of request text (strconv.Parse*, uuid.FromString, JSON decoding) on a request path returns or writes, on its error branch, an error whose herodot status is 4xx, and errors of the mapping/validation layer are never re-wrapped as 5xx by a handler; (R13.3) each gRPC interceptor chain starts with the recovery interceptor and later interceptors are only appended, so a handler panic is answered instead of ending the process; (R13.4) the page size that reaches LIMIT and the has-more test is normalised (0 = default, negative rejected), and no allocation on a request path is sized by the page size or the depth; (R13.5) the recursions that run on request input (OPL type check, expression parser, check engine) carry a termination certificate, since a stack overflow kills the process and cannot be recovered. " +
+		Explanation: "Decides the absence of request-controlled nil dereferences and the classification of malformed input: (R13.1) a forward taint analysis marks every pointer a client can make nil -- elements of []*T and *T fields decoded from JSON (null / absent key), message-typed and oneof fields of protobuf request messages read by field selection or through getters -- follows them through calls, closures, variadic packing, append and struct fields across the keto functions reachable from every API entry point, and requires every dereference (field access, load, method call on a nil pointer/interface, non-comma-ok type assertion) to be dominated by a nil test of that value or of another load of the same field; a sink inside a goroutine started on the request path is process-fatal; (R13.2) every parser of request text (strconv.Parse*, uuid.FromString, JSON decoding) on a request path returns or writes, on its error branch, an error whose herodot status is 4xx, and errors of the mapping/validation layer are never re-wrapped as 5xx by a handler; (R13.3) each gRPC interceptor chain starts with the recovery interceptor and later interceptors are only appended, so a handler panic is answered instead of ending the process; (R13.6) a REST write entry that reads the URL query also parses it strictly (a malformed query is a 400, not a silently different request); (R13.4) the page size that reaches LIMIT and the has-more test is normalised (0 = default, negative rejected), and no allocation on a request path is sized by the page size or the depth; (R13.5) the recursions that run on request input (OPL type check, expression parser, check engine) carry a termination certificate, since a stack overflow kills the process and cannot be recovered. " +
 			"Not decided: that state is unchanged on a 4xx (partly C04/C05), exhaustion, panics inside libraries.",
 		Assumptions: []string{
 			"protobuf-go never delivers nil elements in repeated fields, nor a nil message inside a set oneof wrapper, for messages decoded from the wire",
@@ -87,6 +87,7 @@ func runC13(c *Ctx) {
 	r132(c, entries)
 	r133(c)
 	r134alloc(c, entries)
+	r0412(c, "R13.6")
 	// R13.4
 	r073(c)
 	for _, o := range r.Obls {
@@ -154,6 +155,16 @@ func r132(c *Ctx, entries []core.Entry) {
 		construct := "parse error of " + core.ObjName(site.Callee)
 		if site.Err == nil {
 			r.Violate("R13.2", name, construct, p.Pos(site.Call.Pos()), "the error of a parser of request text is discarded")
+			continue
+		}
+		// a request validator (func(*http.Request) (ok bool, reason string)): the failure leaves as ok == false,
+		// which validate.All turns into herodot.ErrBadRequest (its only error result, checked here once)
+		if isValidatorFunc(site.Fn) {
+			if validatorFailsClosed(site) && validateAllIsBadRequest(p) {
+				r.Discharge("R13.2", name, construct, p.Pos(site.Call.Pos()), "the validator answers ok=false on a parse failure and validate.All reports failed validators as 400")
+			} else {
+				r.Violate("R13.2", name, construct, p.Pos(site.Call.Pos()), "the validator does not answer ok=false when parsing the request fails (or validate.All does not report a 4xx)")
+			}
 			continue
 		}
 		// the values that leave on the err != nil region
@@ -560,4 +571,66 @@ func optsMayComeFromRequest(p *core.Program, fn *ssa.Function) bool {
 		}
 	}
 	return sites == 0
+}
+
+// isValidatorFunc: func(*http.Request) (bool, string).
+func isValidatorFunc(fn *ssa.Function) bool {
+	sig := fn.Signature
+	if sig.Params().Len() != 1 || sig.Results().Len() != 2 {
+		return false
+	}
+	pt, ok := sig.Params().At(0).Type().Underlying().(*types.Pointer)
+	if !ok || !core.IsNamed(pt.Elem(), "net/http", "Request") {
+		return false
+	}
+	b, ok := sig.Results().At(0).Type().Underlying().(*types.Basic)
+	return ok && b.Kind() == types.Bool
+}
+
+// validatorFailsClosed: on the err != nil branch of the parse the function returns false.
+func validatorFailsClosed(site core.ErrSite) bool {
+	ok := false
+	for _, b := range site.Fn.Blocks {
+		if len(b.Instrs) == 0 {
+			continue
+		}
+		ret, isRet := b.Instrs[len(b.Instrs)-1].(*ssa.Return)
+		if !isRet || len(ret.Results) != 2 {
+			continue
+		}
+		for _, cd := range core.CondsAt(b) {
+			op, x, y, isCmp := core.BinCmp(cd.V)
+			if isCmp && x == site.Err && core.IsNilConst(y) && ((op == token.NEQ && cd.True) || (op == token.EQL && !cd.True)) {
+				if k, isK := ret.Results[0].(*ssa.Const); isK && k.Value != nil && k.Value.String() == "false" {
+					ok = true
+				} else {
+					return false
+				}
+			}
+		}
+	}
+	return ok
+}
+
+// validateAllIsBadRequest: validate.All returns herodot.ErrBadRequest... for failed validators.
+func validateAllIsBadRequest(p *core.Program) bool {
+	fn := p.Func("internal/x/validate.All")
+	if fn == nil {
+		return false
+	}
+	found := false
+	for _, b := range fn.Blocks {
+		if len(b.Instrs) == 0 {
+			continue
+		}
+		if ret, ok := b.Instrs[len(b.Instrs)-1].(*ssa.Return); ok && len(ret.Results) == 1 && !core.IsNilConst(ret.Results[0]) {
+			code, _ := herodotCode(p, ret.Results[0], 0)
+			if code >= 400 && code < 500 {
+				found = true
+			} else {
+				return false
+			}
+		}
+	}
+	return found
 }
